@@ -7,6 +7,8 @@
     flagged   native: the implementation's own side-effect-free flag; field: its no_user_view attribute
     outcome   value | sandbox refusal | hidden-field refusal | other error
     changed   deep snapshot of globals+constants / config objects / data directory differs afterwards
+    unsafeInvoked   a function WITHOUT the side-effect-free flag was actually invoked during the evaluation
+              (observed by counting wrappers around the natives' callbacks, not by error texts)
     leak      the value handed back to the caller contains a hidden attribute's value
 
   The property (properties.jsonl C19): sandboxed evaluation "cannot change any global variable or
@@ -27,6 +29,7 @@ structure Obs where
   outcome : Outcome
   changed : Bool
   leak : Bool
+  unsafeInvoked : Bool := false
   deriving DecidableEq, Repr
 
 inductive Clause | stateUnchanged | onlySafeCalls | hiddenFieldUnreadable | noLeak
@@ -41,7 +44,7 @@ def Clause.name : Clause → String
 /-- First violated clause of one observation, if any. -/
 def specStep (o : Obs) : Option Clause :=
   if o.changed then some .stateUnchanged
-  else if o.kind == .native && !o.flagged && o.outcome != .sandbox then some .onlySafeCalls
+  else if o.unsafeInvoked || (o.kind == .native && !o.flagged && o.outcome == .ok) then some .onlySafeCalls
   else if o.kind == .field && o.flagged && o.outcome == .ok then some .hiddenFieldUnreadable
   else if o.leak then some .noLeak
   else none
@@ -57,6 +60,8 @@ def specTrace : List Obs → Option Clause
     than a successful read of a hidden field, which `hiddenFieldUnreadable` covers). -/
 def modelObs (cfg : Cfg) (kind : OpKind) (flagged : Bool) (fuel : Nat) (e : Expr) (env : Env) : Obs :=
   let o := observe cfg fuel e env
-  { kind := kind, flagged := flagged, outcome := o.1, changed := o.2, leak := false }
+  let calls := (eval cfg true fuel e env).2.calls
+  { kind := kind, flagged := flagged, outcome := o.1, changed := o.2, leak := false,
+    unsafeInvoked := calls.any fun c => !(env.calls.contains c) && !safeCallee cfg c }
 
 end Icinga.C19
